@@ -85,14 +85,14 @@ func c7CLI(c *Cfg, repo string, r *Rng) {
 	}
 	var progs []c7prog
 	progs = append(progs, c7Witnesses()...)
-	n := c.Pick(50, 400)
+	n := c.Pick(4, 120)
 	gr := r.Sub()
 	for i := 0; i < n; i++ {
 		g := &c7gen{r: gr.Sub(), counts: map[string]int{}, maxDepth: 1 + i%3, conc: i%3 == 2}
 		progs = append(progs, c7prog{name: fmt.Sprintf("cligen#%d", i), stream: "cli", src: g.Program()})
 	}
 	var wg sync.WaitGroup
-	sem := make(chan struct{}, 4)
+	sem := make(chan struct{}, 8)
 	for i, p := range progs {
 		wg.Add(1)
 		sem <- struct{}{}
@@ -193,16 +193,18 @@ func c7CLIOne(c *Cfg, bin string, i int, p c7prog, cmds []c7cmd, profs map[strin
 			c.Direct(false, c7classOf(pf, j.path != "", j.path, rt, p.src), what+rt.kind+": "+rt.detail, replay)
 		} else {
 			c.Direct(true, "", "", nil)
-			// the command itself must accept its own output
-			os.WriteFile(filepath.Join(dir, "out.cue"), []byte(out), 0o666)
-			_, e2, code2 := c7runCmd(dir, 30*time.Second, bin, "eval", "out.cue")
-			okAgain := code2 == 0 || code2 == -2
-			cls := ""
-			if !okAgain {
-				cls = "cli:output-rejected-by-cue-eval"
-				replay["stderr"] = c7clip(e2, 400)
+			// the command itself must accept its own output (a third of the cases)
+			if (i+len(j.args))%3 == 0 {
+				os.WriteFile(filepath.Join(dir, "out.cue"), []byte(out), 0o666)
+				_, e2, code2 := c7runCmd(dir, 30*time.Second, bin, "eval", "out.cue")
+				okAgain := code2 == 0 || code2 == -2
+				cls := ""
+				if !okAgain {
+					cls = "cli:output-rejected-by-cue-eval"
+					replay["stderr"] = c7clip(e2, 400)
+				}
+				c.Direct(okAgain, cls, what+"output rejected by `cue eval`: "+c7clip(e2, 300), replay)
 			}
-			c.Direct(okAgain, cls, what+"output rejected by `cue eval`: "+c7clip(e2, 300), replay)
 		}
 		// the in-process profile prints the same text as the command
 		func() {
